@@ -2,6 +2,7 @@ import LexgenModel.Proofs.ClassEval
 import LexgenModel.Proofs.Simplify
 import LexgenModel.Proofs.BisimSound
 import LexgenModel.Proofs.RuleSetLang
+import LexgenModel.Proofs.CompileLang
 /-!
 # C02 — Regex operators denote their documented languages
 
@@ -11,7 +12,9 @@ the README's reading of every operator), in rule order (Thompson construction `a
 subset construction `nfaToDfa_correct_partial`, composed in `ruleSet_lang`); the class fragment
 denotes exact sets at every code point; removal of terminal states preserves accept lists; the
 per-program DFA comparison used as the tie is sound. Interchangeability of regexes with equal
-denotation is a corollary: `den` is all the theorem depends on.
+denotation is a corollary: `den` is all the theorem depends on. `C02_end_to_end` composes every
+stage of the model of `lexer()` (binding scopes, rule desugaring, Thompson, subset construction,
+`add_dfa` glue, backtrack analysis, `simplify`) into one statement about the FINAL machine.
 -/
 namespace Lexgen
 
@@ -79,5 +82,18 @@ theorem C02_comparison_sound {τ₁ τ₂ : Type} [Target τ₁] [Target τ₂] 
     (h : (bisim a b (fun l1 l2 => l1 == l2) starts).1.ok = true) (x y : Nat) (hxy : (x, y) ∈ starts) :
     EquivFrom a b x y :=
   bisim_sound a b starts h x y hxy
+
+/-- End to end through the model of the macro: for every rule set of a lexer definition the model
+compiles, the final machine (after `add_dfa` glue, backtrack analysis and `simplify`) has an entry for
+that rule set from which, after every word of characters, the accept list is exactly the rules of the
+set whose regex denotes the word — in rule order — and the end-of-input transition carries exactly the
+rules denoting the word followed by end-of-input. The side condition is that the class fragments of the
+desugared rules are the ones `C02_class_denotation` covers. -/
+theorem C02_end_to_end (items : LexerDef) (c : Compiled) (h : compileLexer items = .ok c)
+    (name : String) (rs : List RuleOrBinding) (b : Bindings) (k : Nat)
+    (hmem : (name, rs, b, k) ∈ scopedRuleSets items [] 0) :
+    ∃ e rules, (name, e) ∈ c.entries ∧ e < c.dfa.length ∧ coreRules rs b k = some rules ∧
+      ((∀ r ∈ rules, regexPiecesOK r.re) → RealisesRules c.dfa e rules) :=
+  compileLexer_lang items c h name rs b k hmem
 
 end Lexgen
